@@ -17,7 +17,7 @@ ssize_t v_write(int fd, const void *buf, size_t n) {
 char *v_strerror(int e) { static char s[2]; (void)e; return s; }
 bool m_mod_is(const m_mod_t *mod, m_mod_states st) { return mod && (mod->state & st); }
 
-#define H_INPUTS(X) X(uint8_t, state) X(uint8_t, has_topic) X(uint8_t, has_key) X(uint8_t, pipe_full) X(uint8_t, autofree) X(uint64_t, oom) X(uint64_t, pipe_len)
+#define H_INPUTS(X) X(uint8_t, state) X(uint8_t, has_topic) X(uint8_t, has_key) X(uint8_t, pipe_full) X(uint8_t, autofree) X(uint64_t, oom) X(uint64_t, pipe_len) X(uint32_t, flags_old) X(uint32_t, flags_new)
 V_DEFINE_INPUTS(H_INPUTS)
 static bool v_state_valid(unsigned s) { return s == M_MOD_IDLE || s == M_MOD_RUNNING || s == M_MOD_PAUSED || s == M_MOD_STOPPED || s == M_MOD_ZOMBIE; }
 
@@ -120,12 +120,58 @@ void h_pill_real(void) {
     V_COVER("pill-accepted", r == 0); V_COVER("pill-refused", r != 0);
     V_CANARY();
 }
+/* ---- m_mod_ps_subscribe() on the real ps.c + real mem.c (C09, C04): the module's subscription table is keyed by the topic string of the subscription stored there.
+ * The table is a one-entry recording stub with the semantics the map units prove for M_MAP_VAL_ALLOW_UPDATE tables (new key stored as given; an update KEEPS the stored
+ * key and destroys the value it replaces; removal destroys the value).  Every pointer handed to the allocator's free is recorded, so "the key the table keeps was
+ * released" is decided exactly. */
+static struct { bool present; const char *key; void *val; } g_ent; static int g_tabobj;
+static void *g_freed[6]; static size_t g_nfreed;
+static void v_free_rec(void *p) { if (g_nfreed < 6) g_freed[g_nfreed] = p; g_nfreed++; v_free(p); }
+static bool v_was_freed(const void *p) { for (size_t i = 0; i < 6; i++) if (i < g_nfreed && g_freed[i] == p) return true; return false; }
+#ifndef V_SUBSCRIBE_STUBS_OFF
+m_map_t *m_map_new(m_map_flags flags, m_map_dtor fn) { (void)fn; V_CHECK("C09.subscription-table-allows-in-place-update", flags == M_MAP_VAL_ALLOW_UPDATE); g_ent.present = false; return (m_map_t *)&g_tabobj; }
+void *m_map_get(const m_map_t *m, const char *key) { (void)m; (void)key; return g_ent.present ? g_ent.val : NULL; }
+int m_map_put(m_map_t *m, const char *key, void *value) {
+    (void)m;
+    if (g_ent.present) { void *old = g_ent.val; g_ent.val = value; mem_dtor(old); }      /* update: stored key kept, old value destroyed */
+    else { g_ent.present = true; g_ent.key = key; g_ent.val = value; }
+    return 0;
+}
+int m_map_remove(m_map_t *m, const char *key) { (void)m; (void)key; if (!g_ent.present) return -ENOENT; g_ent.present = false; mem_dtor(g_ent.val); g_ent.key = NULL; g_ent.val = NULL; return 0; }
+void mem_dtor(void *src) { m_mem_unref(src); }
+char *mem_strdup(const char *s) { char *n = memhook._malloc(2); if (n) { n[0] = s[0]; n[1] = 0; } return n; }
+int v_regcomp(regex_t *preg, const char *regex, int cflags) { (void)preg; (void)regex; (void)cflags; return 0; }
+void v_regfree(regex_t *preg) { (void)preg; }
+#endif
+/* the compiled pattern is an opaque libc object: copying it (64 bytes with embedded pointers, from an object regcomp would have filled) made CBMC run out of memory;
+ * in this unit memcpy is swapped for this stub (goto-instrument --replace-calls): the one copy the function makes is of exactly that object and is skipped */
+void *v_memcpy_regex(void *dst, const void *src, size_t n) { (void)src; V_CHECK("C04.only-the-compiled-pattern-is-copied", n == sizeof(regex_t)); return dst; }
+void h_subscribe_real(void) {
+    v_inputs_init(); v_base_init(); memhook._free = v_free_rec; g_nfreed = 0;
+    static m_mod_t modobj; static char topic[2] = "t"; static int up1, up2;
+    m_src_flags fo = (m_src_flags)vin_flags_old, fn = (m_src_flags)vin_flags_new;
+    g_mctx = &g_ctxobj; modobj.ctx = &g_ctxobj; modobj.state = M_MOD_RUNNING; modobj.flags = 0; modobj.tb.tokens = 5; modobj.subscriptions = NULL; g_ent.present = false;
+    V_ASSUME(!(fo & M_SRC_AUTOFREE) && !(fn & M_SRC_AUTOFREE));
+    int r0 = 0;
+    if (vin_autofree & 1) { r0 = m_mod_ps_subscribe(&modobj, topic, fo, &up1); V_ASSUME(r0 == 0); }      /* an earlier subscription to the same topic (any flags, possibly M_SRC_DUP) */
+    size_t freed_before = g_nfreed;
+    int r = m_mod_ps_subscribe(&modobj, topic, fn, &up2);
+    if (r == 0) {
+        ev_src_t *cur = g_ent.val;
+        V_CHECK("C09.one-subscription-per-topic-carrying-the-latest-user-pointer", g_ent.present && cur != NULL && cur->userptr == (void *)&up2 && cur->mod == &modobj && cur->type == M_SRC_TYPE_PS);
+        /* the key the table keeps, and the topic the stored subscription carries, are live memory: neither was handed to free() on the way */
+        V_CHECK("C04.subscription-table-key-is-not-released-memory", !v_was_freed(g_ent.key) && !v_was_freed(cur->ps_src.topic));
+        if ((vin_autofree & 1) && fo == fn) V_CHECK("C09.repeated-subscription-updated-in-place", g_nfreed == freed_before);
+    }
+    V_COVER("resubscribe-dup-with-other-flags", r == 0 && (vin_autofree & 1) && (fo & M_SRC_DUP) && fo != fn); V_COVER("subscribe-first", r == 0 && !(vin_autofree & 1));
+    V_COVER("resubscribe-same-flags", r == 0 && (vin_autofree & 1) && fo == fn); V_COVER("subscribe-two-priorities-refused", r == -EINVAL);
+    V_CANARY();
+}
 #ifdef V_NATIVE
 /* the native replay links the whole ps.c: the map functions behind publish/broadcast are not reached by these harnesses (a recipient is always given) */
-void *m_map_get(const m_map_t *m, const char *k) { (void)m; (void)k; abort(); }
 m_map_itr_t *m_map_itr_new(const m_map_t *m) { (void)m; abort(); }
 void *m_map_itr_get_data(const m_map_itr_t *i) { (void)i; abort(); }
 int m_map_itr_next(m_map_itr_t **i) { (void)i; abort(); }
 int m_map_iterate(const m_map_t *m, m_map_cb cb, void *up) { (void)m; (void)cb; (void)up; abort(); }
-V_NATIVE_MAIN(V_H(h_tell_if_real), V_H(h_send_two_real), V_H(h_pill_real))
+V_NATIVE_MAIN(V_H(h_tell_if_real), V_H(h_send_two_real), V_H(h_pill_real), V_H(h_subscribe_real))
 #endif
